@@ -201,10 +201,17 @@ def gen_history(rng, tier):
                 acquire = ("M", nkeys, rng.below(5))
             elif ar < 6:
                 acquire = ("S",)
+            elif ar < 7:
+                # the host sends the whole key document but announces a longer one and drops the connection: the response ends
+                # in the middle as far as the agent can tell, with the key already received
+                nkeys += 1
+                acquire = ("T", nkeys)
             else:
                 nkeys += 1
                 acquire = ("K", nkeys, 0 if rng.chance(1, 4) else 1, rng.below(3))
             store_ok = 0 if (acquire[0] == "K" and rng.chance(1, 8)) else 1
+            if acquire[0] == "K" and status[0] == "K" and status[1] is None and status[2] != "disabled" and rng.chance(1, 5):
+                store_ok = 2            # the key directory has vanished when the key is to be stored (moved away for this one poll)
             attest = rng.pick([("O",)] * 5 + [("H", 500), ("H", 403), ("S",)])
             steps.append(("poll", status, acquire, store_ok, attest))
             # bookkeeping only to steer the generator (the model is the judge)
@@ -212,7 +219,7 @@ def gen_history(rng, tier):
                 g = status[1]
                 need = g is None or g != cur
                 if need and not (g in files):
-                    if acquire[0] == "K" and store_ok:
+                    if acquire[0] == "K" and store_ok == 1:
                         files.append(acquire[1])
                         if acquire[2] == 1 and attest == ("O",):
                             cur = acquire[1]
@@ -305,12 +312,12 @@ def step_line(step, guids):
         a = "H %d" % acquire[1]
     elif acquire[0] == "M":
         a = "M %d" % acquire[1]
-    elif acquire[0] == "S":
+    elif acquire[0] in ("S", "T"):
         a = "S"
     else:
         a = "K %d %d" % (acquire[1], acquire[2])
     t = "O" if attest[0] == "O" else ("H %d" % attest[1] if attest[0] == "H" else "S")
-    return "sec poll %s %s %d %s" % (s, a, store_ok, t)
+    return "sec poll %s %s %d %s" % (s, a, 1 if store_ok == 1 else 0, t)
 
 
 def parse_model(line):
@@ -378,7 +385,18 @@ def run_history(chk, binp, steps, salt, strace=False):
             chk.count("step_" + kind)
             if kind == "poll":
                 plan = make_plan(step, keys, salt, chk)
+                vanished = step[3] == 2
+                if vanished:
+                    os.rename(key_dir, key_dir + ".away")
+                    chk.count("polls_with_the_key_directory_gone")
                 state = real.kp.step(plan, kick=True)
+                if vanished:
+                    if os.path.isdir(key_dir):
+                        # the agent made a key directory of its own in the meantime: whatever it put there is judged like any key file
+                        check_key_dir(chk, dict(desc, note="key directory re-created by the agent after it had vanished"), i,
+                                      dict(m, files=sorted(os.path.basename(f)[2:-4] for f in glob.glob(key_dir + "/*.key"))), key_dir, keys)
+                        shutil.rmtree(key_dir, ignore_errors=True)
+                    os.rename(key_dir + ".away", key_dir)
                 if state is None:
                     chk.disagreement("poll-did-not-finish", dict(desc, at=i), "iteration completes", "no next status request within 8 s")
                     return
@@ -498,6 +516,11 @@ def make_plan(step, keys, salt, chk):
         plan["acquire"] = {"kind": "http", "code": acquire[1]}
     elif acquire[0] == "S":
         plan["acquire"] = {"kind": "reset"}
+    elif acquire[0] == "T":
+        k = key_text(salt, acquire[1], True, 0)
+        keys[acquire[1]] = k
+        plan["acquire"] = {"kind": "truncated", "guid": "g-%d" % acquire[1], "key": k}
+        chk.count("acquire_response_cut_short")
     elif acquire[0] == "M":
         k = key_text(salt, acquire[1], True, 0)
         keys[acquire[1]] = k
@@ -506,7 +529,7 @@ def make_plan(step, keys, salt, chk):
     else:
         k = key_text(salt, acquire[1], acquire[2] == 1, acquire[3])
         keys[acquire[1]] = k
-        guid = "g-%d" % acquire[1] if store_ok else "nodir-%d/g-%d" % (acquire[1], acquire[1])
+        guid = "g-%d" % acquire[1] if store_ok in (1, 2) else "nodir-%d/g-%d" % (acquire[1], acquire[1])
         plan["acquire"] = {"kind": "key", "guid": guid, "key": k}
         chk.count("key_hex" if acquire[2] == 1 else "key_not_hex_shape_%d" % acquire[3])
     plan["attest"] = {"kind": "ok"} if attest[0] == "O" else ({"kind": "http", "code": attest[1]} if attest[0] == "H" else {"kind": "reset"})
